@@ -941,7 +941,72 @@ def run_sow_perturb_clash(ctx, i, rng):
       ctx.check(raised is not None, 'clash:not_rejected:' + kind, lambda: dict(case=desc, variables=repr(None if out is None else out[1])[:200]))
 
 
+def run_bound_partial_touch(ctx, i, rng):
+  """A bound model whose sub-module was used in a way that touched only SOME of its collections (a params-only method, a
+  has_variable probe) before `.variables` / `.unbind()` is asked for: the sub-module's variables are complete and the unbound
+  sub-module applied on them computes what it computes inside its parent."""
+  import jax
+  import jax.numpy as jnp
+  import flax.linen as nn
+  first = ['params_only_method', 'has_variable_params', 'has_variable_stats', 'full_call', 'nothing'][i % 5]
+  depth = 1 + (i // 5) % 2
+  desc = dict(before=first, depth=depth)
+  with ctx.case('bound_partial_touch', i, desc, nontrivial=first not in ('full_call', 'nothing')):
+    class Enc(nn.Module):
+      def setup(self):
+        self.proj = nn.Dense(3)
+        self.norm = nn.BatchNorm(use_running_average=True)
+
+      def __call__(self, x):
+        return self.norm(self.proj(x))
+
+      def project(self, x):          # touches 'params' only
+        return self.proj(x)
+
+    class Stack(nn.Module):
+      def setup(self):
+        self.encoder = Enc()
+
+      def __call__(self, x):
+        return self.encoder(x) * 2.0
+
+    class Model(nn.Module):
+      def setup(self):
+        self.stack = Stack() if depth == 2 else None
+        self.encoder = Enc() if depth == 1 else None
+
+      def __call__(self, x):
+        return (self.stack(x) if depth == 2 else self.encoder(x) * 2.0) + 1.0
+
+    x = jnp.asarray(np.random.default_rng(i).uniform(-1, 1, (2, 3)).astype(np.float32))
+    v = Model().init(jax.random.key(i), x)
+    v = jax.tree_util.tree_map(lambda a: a + 0.25, v)
+    bound = Model().bind(v)
+    enc = bound.stack.encoder if depth == 2 else bound.encoder
+    if first == 'params_only_method':
+      enc.project(x)
+    elif first == 'has_variable_params':
+      enc.has_variable('params', 'proj')
+    elif first == 'has_variable_stats':
+      enc.norm.has_variable('batch_stats', 'mean')
+    elif first == 'full_call':
+      enc(x)
+    sub_vars = enc.variables
+    ctx.op('bound sub-module .variables / .unbind() after a partial use')
+    ctx.check(set(sub_vars) == {'params', 'batch_stats'}, 'bind:submodule_variables_incomplete', lambda: dict(case=desc, collections=sorted(sub_vars)))
+    um, uv = enc.unbind()
+    ctx.check(set(uv) == {'params', 'batch_stats'}, 'bind:submodule_variables_incomplete', lambda: dict(case=desc, unbound_collections=sorted(uv)))
+    try:
+      y_alone = um.apply(uv, x)
+      inside = enc(x)
+      ctx.check(close(y_alone, inside), 'bind:unbound_submodule_differs', lambda: dict(case=desc))
+    except Exception as e:  # noqa: BLE001
+      ctx.check(False, 'bind:unbound_submodule_differs', dict(case=desc, error=repr(e)[:200]))
+
+
 def run(ctx):
+  for i in ctx.indices(20, 'bound_partial_touch'):
+    run_bound_partial_touch(ctx, i, ctx.rng('bound_partial_touch', i))
   for i in ctx.indices(8, 'sow_perturb_clash'):
     run_sow_perturb_clash(ctx, i, ctx.rng('sow_perturb_clash', i))
   for i in ctx.indices(6, 'shared_repeated_parent'):
